@@ -49,7 +49,7 @@ STORED_GET = ["{'a': 0}", "{'a': 0, 'b': [1]}", "{'a': {'b': 0}, 'c': 1}", "{0: 
 
 
 def bounds(tier):
-    return {"real_session_differential_tests": len(RD_BODIES) + sum(len(c) for _, c in RD_HELPERS), "stored_eq": len(STORED_EQ), "seq_len": _k(tier), "spellings": sorted(SPELL) + ["[k]", "[k][k]", "[k]<=", "[k]in"],
+    return {"real_session_differential_tests": len(RD_BODIES) + len(_star_bodies()) + sum(len(c) for _, c in RD_HELPERS), "stored_eq": len(STORED_EQ), "seq_len": _k(tier), "spellings": sorted(SPELL) + ["[k]", "[k][k]", "[k]<=", "[k]in"],
             "ordered_kinds": {k: len(v) for k, v in ORDERED.items()}}
 
 
@@ -251,7 +251,7 @@ def _run_probe(c):
 # Bodies re-evaluate one call site (loop / helper used by two tests) whose argument holds user-controlled parts or inner
 # snapshots in places where the implementation compares values on its own (defaults of constructor calls, re-evaluation).
 RD_PRE = ("import pytest\nfrom dataclasses import dataclass, field\nfrom collections import namedtuple\nimport attrs\nimport pydantic\n"
-          "from inline_snapshot import snapshot, Is\n\n\n"
+          "from inline_snapshot import snapshot, Is\n\nBASE = [1, 2]\nDEF = {'a': 1}\n\n\n"
           "@dataclass\nclass DC:\n    x: object\n    y: int = 0\n    z: list = field(default_factory=list)\n\n\n"
           "@attrs.define\nclass AT:\n    a: object\n    b: int = 5\n    c: list = attrs.Factory(list)\n\n\n"
           "class PM(pydantic.BaseModel):\n    a: object\n    b: int = 7\n\n\n"
@@ -277,7 +277,33 @@ RD_BODIES = [
     "for _ in (1, 2):\n        assert DC(x=1) == snapshot(DC(x=1, y=0, z=[]))",
     "for v in (5, 5):\n        assert v <= snapshot(5)\n        assert v in snapshot([5])\n        assert snapshot({'a': 5})['a'] == v",
 ]
+# containers holding star-expressions at depth 0..2, re-evaluated: (stored source, equal value, unequal value)
+RD_STAR = [
+    ("[*BASE, 3]", "[1, 2, 3]", "[1, 2]"), ("(*BASE,)", "(1, 2)", "(1,)"), ("{**DEF, 'b': 2}", "{'a': 1, 'b': 2}", "{'a': 1}"),
+    ("[[*BASE, 3], 'w']", "[[1, 2, 3], 'w']", "[[1, 2], 'w']"), ("{'p': [*BASE, 3], 'q': 0}", "{'p': [1, 2, 3], 'q': 0}", "{'p': [1, 2, 3], 'q': 1}"),
+    ("{'o': {**DEF, 'b': 2}}", "{'o': {'a': 1, 'b': 2}}", "{'o': {'a': 1}}"), ("([*BASE], 0)", "([1, 2], 0)", "([1, 2], 1)"),
+    ("[(*BASE, 3)]", "[(1, 2, 3)]", "[]"), ("[[[*BASE]]]", "[[[1, 2]]]", "[[[1]]]"), ("{'a': {'b': [*BASE]}}", "{'a': {'b': [1, 2]}}", "{'a': {}}"),
+    ("DC(x=[*BASE])", "DC(x=[1, 2])", "DC(x=[1])"), ("[DC(x=[*BASE], y=1)]", "[DC(x=[1, 2], y=1)]", "[DC(x=[1, 2], y=2)]"),
+    ("DC(*BASE)", "DC(1, 2)", "DC(1, 3)"), ("DC(**{'x': 1})", "DC(x=1)", "DC(x=2)"), ("[DC(*BASE), 0]", "[DC(1, 2), 0]", "[DC(1, 2)]"),
+    ("{'k': DC(x=1, **{'y': 2})}", "{'k': DC(x=1, y=2)}", "{'k': DC(x=1, y=3)}"), ("[snapshot([*BASE]), 0]", "[[1, 2], 0]", "[[1, 2], 1]"),
+    ("[Is(1), [*BASE]]", "[1, [1, 2]]", "[2, [1, 2]]"),
+]
+
+
+def _star_bodies():
+    out = []
+    for st, eq, ne in RD_STAR:
+        for val in (eq, ne):
+            out.append("for _ in (1, 2):\n        assert %s == snapshot(%s)" % (val, st))
+            out.append("for _ in (1, 2, 3):\n        assert snapshot(%s) == %s" % (st, val))
+            out.append("for _ in (1, 2):\n        assert %s in snapshot([0, %s])" % (val, st))
+            out.append("for _ in (1, 2):\n        assert snapshot({'k': %s, 'z': 0})['k'] == %s" % (st, val))
+    return out
+
+
 RD_HELPERS = [
+    ("def helper_%d(v):\n    assert v == snapshot([[*BASE, 3], 'w'])\n", ["helper_%d([[1, 2, 3], 'w'])", "helper_%d([[1, 2, 3], 'w'])", "helper_%d([[1, 2, 3], 'w'])"]),
+    ("def helper_%d(v):\n    assert v == snapshot({'o': {**DEF, 'b': 2}})\n", ["helper_%d({'o': {'a': 1, 'b': 2}})", "helper_%d({'o': {'a': 1, 'b': 2}})"]),
     ("def helper_%d(v):\n    assert DC(x=1, y=v) == snapshot(DC(x=1, y=snapshot(5)))\n", ["helper_%d(5)", "helper_%d(5)"]),
     ("def helper_%d(v):\n    assert AT(a=v) == snapshot(AT(a=snapshot(1), b=5))\n", ["helper_%d(1)", "helper_%d(1)"]),
     ("S_%d = snapshot(DC(x=1, y=snapshot(5)))\n", ["assert DC(x=1, y=5) == S_%d", "assert S_%d == DC(x=1, y=5)"]),
@@ -286,8 +312,8 @@ RD_HELPERS = [
 
 def _realdiff_source():
     out = [RD_PRE]
-    for i, b in enumerate(RD_BODIES):
-        out.append("def test_b%02d():\n    %s\n\n\n" % (i, b))
+    for i, b in enumerate(RD_BODIES + _star_bodies()):
+        out.append("def test_b%03d():\n    %s\n\n\n" % (i, b))
     for i, (h, calls) in enumerate(RD_HELPERS):
         out.append((h % i) + "\n\n")
         for j, c in enumerate(calls):
@@ -321,7 +347,7 @@ def _run_realdiff():
             if res[k].get(nid) != res[1][nid]:
                 viol.append(("outcome-differs-from-disabled-session", "%s: %s %s, disabled %s\n%s" % (
                     nid, lab, res[k].get(nid), res[1][nid], _rd_body(nid))))
-    if n < len(RD_BODIES):
+    if n < len(RD_BODIES) + len(_star_bodies()):
         viol.append(("realdiff-session-failed", "only %d tests reported" % n))
     return viol, n
 
